@@ -7,6 +7,7 @@ mod certdrv;
 mod csrdrv;
 mod der;
 mod desc;
+mod faultdrv;
 mod dndrv;
 mod keydrv;
 mod keys;
@@ -40,6 +41,7 @@ fn main() {
 		"strings" => strdrv::run(&args[2], &args[3]),
 		"keys" => keydrv::run_keys(&args[2], &args[3]),
 		"pem" => keydrv::run_pem(&args[2], &args[3]),
+		"sign-faults" => faultdrv::run_cases(&args[2], &args[3], &args[4]),
 		"dn-cases" => dndrv::run_cases(&args[2], &args[3]),
 		"dn-random" => dndrv::run_random(&args[2], args[3].parse().unwrap(), args[4].parse().unwrap()),
 		other => {
